@@ -210,9 +210,12 @@ def main (args : List String) : IO UInt32 := do
       | "spec" => runSpec c
       | "model" => runModel {} c
       | m =>
-        -- `fixed:<flags>`: r = roll-back repaired, c = contract imports mangled, m = modifiers composed
+        -- `variant:<flags>`: m = modifiers composed (what S asks; open finding K14c),
+        -- R = the roll-back defect fixed by d10f8017 re-introduced, C = the unmangled contract
+        -- imports fixed by 1587f6f5 re-introduced
         let fl := ((m.splitOn ":").getD 1 "").toList
-        runModel { rollback := fl.contains 'r', contractImports := fl.contains 'c', compose := fl.contains 'm' } c
+        runModel { rollback := !fl.contains 'R', contractImports := !fl.contains 'C',
+                   compose := fl.contains 'm' } c
     for l in lines do
       IO.println l
   return (if p.errors.isEmpty then 0 else 2)
